@@ -2,7 +2,7 @@
    Only statements, `exact <lemma>` and Print Assumptions live here. *)
 From Coq Require Import ZArith List Bool Lia.
 From Coq Require String.
-From BNP Require Import Base.Prims Model.C07 Proofs.C07 Proofs.C07_sim Proofs.C07_main Gen.C07 Bridge.C07.
+From BNP Require Import Base.Prims Model.C07 Proofs.C07 Proofs.C07_sim Proofs.C07_main Proofs.C07_view Corr.C07 Proofs.C07_link Gen.C07 Bridge.C07.
 Import ListNotations.
 Open Scope Z_scope.
 
@@ -87,7 +87,8 @@ Print Assumptions C07_lookup.
    (discharged by the three lookup theorems above). *)
 Theorem C07_step_simulation :
   forall prep vr e v o,
-    enc_wf e -> enc_of v = e -> chars_agree prep e o -> o <> SArr ->
+    enc_wf e -> enc_of v = e -> chars_agree prep e o ->
+    (o = SArr -> v_sarr_empty_raises vr = false /\ sarr_ok (decode1 e) v) ->     (* string_array: NUL-free text *)
     mapr (decode1 e) (g_step (model_prims_with prep vr) v o) = s_step (mapv (decode1 e) v) o.
 Proof. exact step_simulation. Qed.
 Print Assumptions C07_step_simulation.
@@ -99,7 +100,7 @@ Theorem C07_program_pinned_partial :
   forall vr e ops v saved,
     match e with Base => True | Alpha al => alpha_ok al end -> enc_of v = e ->
     Forall (fun o => (forall c, In c (op_chars o) -> match e with Base => True | Alpha al => shadow al c = false end)
-                     /\ o <> SArr) ops ->
+                     /\ sarr_side vr e o) ops ->
     map_run (decode1 e) (g_run (model_prims_with m_prep_pinned vr) v saved ops)
     = s_run (mapv (decode1 e) v) (option_map (mapv (decode1 e)) saved) ops.
 Proof. exact program_head_partial. Qed.
@@ -108,7 +109,7 @@ Print Assumptions C07_program_pinned_partial.
 Theorem C07_program :
   forall vr e ops v saved,
     match e with Base => True | Alpha al => alpha_ok al end -> enc_of v = e ->
-    Forall (fun o => o <> SArr) ops ->
+    Forall (sarr_side vr e) ops ->      (* string_array steps: the variant does not raise and no code decodes to NUL *)
     map_run (decode1 e) (g_run (model_prims_with m_prep vr) v saved ops)
     = s_run (mapv (decode1 e) v) (option_map (mapv (decode1 e)) saved) ops.
 Proof. exact program_fixed_full. Qed.
@@ -145,6 +146,70 @@ Theorem C07_step_pinned_refuted :
   exists v o, snd (m_step_v pinned true v o) = ORaise /\ exists v', snd (s_step (dec_value v) o) = OV v'.
 Proof. exact step_pinned_refuted. Qed.
 Print Assumptions C07_step_pinned_refuted.
+
+(* every alphabet without the NUL character never decodes to NUL: string_array steps are covered for it *)
+Theorem C07_alphabet_nul_free :
+  forall al, enc_wf (Alpha al) -> ~ In 0 al -> nul_free_enc (Alpha al).
+Proof. exact nul_free_alpha. Qed.
+Print Assumptions C07_alphabet_nul_free.
+
+(* ---- T3: the ragged view algebra (npstructures' representation: buffer + per-row start and length + one column
+   step; Model/C07.v section 5).  No hypothesis relates the starts to each other: the views may be non-contiguous,
+   reordered, overlapping, strided — whatever earlier indexing steps left. ---- *)
+(* a freshly built array denotes its rows *)
+Theorem C07_view_of_rows : forall rows, rv_rows (rv_of_rows rows) = rows /\ rv_wf (rv_of_rows rows).
+Proof. exact view_of_rows. Qed.
+Print Assumptions C07_view_of_rows.
+(* row slice / fancy / mask indexing of the (start, length) table = the same selection of the rows *)
+Theorem C07_view_rows :
+  forall v s v', rv_wf v -> v_rowsel v s = Some v' -> sel_rows (rv_rows v) s = Some (rv_rows v') /\ rv_wf v'.
+Proof. exact view_rowsel_rows. Qed.
+Print Assumptions C07_view_rows.
+(* a column slice with positive step rewrites starts, lengths and step so that every row is Python's slice of the row *)
+Theorem C07_view_columns :
+  forall v a b st, rv_wf v -> 0 < st ->
+    rv_rows (v_colslice_pos v a b st) = map (col_slice a b (Some st)) (rv_rows v) /\ rv_wf (v_colslice_pos v a b st).
+Proof. exact view_colslice_pos_rows. Qed.
+Print Assumptions C07_view_columns.
+(* reversal [:, ::-1] (through _calculate_lengths as transcribed) reverses every row, empty rows included *)
+Theorem C07_view_reverse_partial :
+  forall v, rv_wf v ->
+    rv_rows (v_colslice_neg v None None (-1)) = map (col_slice None None (Some (-1))) (rv_rows v)
+    /\ rv_wf (v_colslice_neg v None None (-1)).
+Proof. exact view_reverse_rows. Qed.
+Print Assumptions C07_view_reverse_partial.
+(* ... a general negative-step column slice is not Python's slice (empty row + explicit start): the npstructures finding *)
+Theorem C07_view_negative_step_refuted :
+  exists v a b st, rv_wf v /\ st < 0 /\ rv_rows (v_colslice_neg v a b st) <> map (col_slice a b (Some st)) (rv_rows v).
+Proof. exact view_colslice_neg_refuted. Qed.
+Print Assumptions C07_view_negative_step_refuted.
+(* ravel() (build_indices: fill with the step, jumps at row starts, cumulative sum) of any view = its rows concatenated *)
+Theorem C07_view_ravel : forall v, v_ravel v = concat (rv_rows v).
+Proof. exact view_ravel. Qed.
+Print Assumptions C07_view_ravel.
+(* every finite sequence of row selections / column slices / reversals, never materialised in between: the view
+   carried along denotes what the list semantics of g_step gives — "view indexing commutes" for the whole history *)
+Theorem C07_view_program :
+  forall P e ops v v', rv_wf v -> Forall view_op_ok ops -> v_run v ops = Some v' ->
+    g_last P (VR e (rv_rows v)) ops = VR e (rv_rows v') /\ rv_wf v'.
+Proof. exact view_program_rows. Qed.
+Print Assumptions C07_view_program.
+
+(* ---- the two verdicts of the correspondence (Corr/C07.v) ---- *)
+(* spec_ok = (Spec agrees with Python's reference on the program) && (implementation satisfies the Spec) *)
+Theorem C07_spec_ok_split : forall c, spec_ok c = ref_ok c && impl_spec_ok c.
+Proof. exact spec_ok_split. Qed.
+Print Assumptions C07_spec_ok_split.
+(* for every program case all of whose steps the model describes: the implementation agreeing with the MODEL on raw
+   codes implies the implementation satisfies the SPEC on characters *)
+Theorem C07_model_ok_implies_spec :
+  forall c, linkable c -> model_ok c = true -> impl_spec_ok c = true.
+Proof. exact model_ok_implies_spec. Qed.
+Print Assumptions C07_model_ok_implies_spec.
+Theorem C07_model_ok_implies_spec_ok :
+  forall c, linkable c -> ref_ok c = true -> model_ok c = true -> spec_ok c = true.
+Proof. exact model_ok_implies_spec_ok. Qed.
+Print Assumptions C07_model_ok_implies_spec_ok.
 
 (* ---- source tie: the index / length arithmetic and the statement shapes regenerated from /repo on this run
    (Gen/C07.v, written by translate/run.py from strops.join / split / str_equal / _str_equal_two_encoded_ragged_arrays,
@@ -183,7 +248,7 @@ Example C07_nonvacuous_program :
   let ops := [RowSel (SSlice None None (Some (-1))); ColSlice None None (Some (-1));
               Eq (PChar 103) false; SetRCol (SSlice None (Some 1) None) 0 97; Concat [PtSelf; PtRows [unhex "6161"%string]]] in
   alpha_ok [65; 67; 71; 84]
-  /\ Forall (fun o => (forall c, In c (op_chars o) -> shadow [65; 67; 71; 84] c = false) /\ o <> SArr) ops
+  /\ Forall (fun o => (forall c, In c (op_chars o) -> shadow [65; 67; 71; 84] c = false) /\ sarr_side repaired e o) ops
   /\ map fst (s_run (VR e [unhex "41434754"; []; unhex "4754"]%string) None ops)
      = [OV (VR e [unhex "4754"; []; unhex "41434754"]%string);
         OV (VR e [unhex "5447"; []; unhex "54474341"]%string);
@@ -195,4 +260,39 @@ Proof.
   - split; [repeat constructor; simpl; intuition lia|repeat constructor; lia].
   - repeat constructor; try discriminate; simpl; intros c H; intuition (subst; reflexivity).
   - vm_compute. reflexivity.
+Qed.
+
+Example C07_nonvacuous_view :
+  (* ["ACGT"; ""; "GT"] : rows reversed, columns [1::2], rows [2,0,0], columns reversed — never materialised *)
+  let ops := [RowSel (SSlice None None (Some (-1))); ColSlice (Some 1) None (Some 2); RowSel (SFancy [2; 0; 0]);
+              ColSlice None None (Some (-1))] in
+  Forall view_op_ok ops
+  /\ option_map rv_rows (v_run (rv_of_rows [unhex "41434754"; []; unhex "4754"]%string) ops)
+     = Some [unhex "5443"; unhex "54"; unhex "54"]%string
+  /\ v_ravel (rv_of_rows [unhex "41434754"; []; unhex "4754"]%string) = unhex "414347544754"%string.
+Proof. split; [repeat constructor; simpl; auto; lia|]. vm_compute. split; reflexivity. Qed.
+
+Example C07_nonvacuous_sarr :
+  nul_free_enc (Alpha [65; 67; 71; 84]) /\ sarr_side repaired (Alpha [65; 67; 71; 84]) SArr.
+Proof.
+  assert (H : nul_free_enc (Alpha [65; 67; 71; 84])).
+  { apply nul_free_alpha; [split; [repeat constructor; simpl; intuition lia|repeat constructor; lia]|simpl; intuition lia]. }
+  split; [exact H|]. intros _. split; [reflexivity|exact H].
+Qed.
+
+Example C07_nonvacuous_link :
+  let c := {| k_encid := 1; k_alpha := Some [65; 67; 71; 84]; k_ragged := true; k_init := [[65; 67]; []];
+              k_init_obs := IV 0 1 [[65; 67]; []] [[0; 1]; []];
+              k_steps := [{| i_op := ColSlice None None (Some (-1)); i_writable := true;
+                             i_obs := IV 0 1 [[67; 65]; []] [[1; 0]; []]; i_orig := None; i_root := None;
+                             i_exp := IV 0 1 [[67; 65]; []] [] |};
+                          {| i_op := Eq (PChar 99) false; i_writable := true;
+                             i_obs := IM 0 [[true; false]; []]; i_orig := None; i_root := None;
+                             i_exp := IM 0 [[true; false]; []] |}] |} in
+  linkable c /\ model_ok c = true /\ spec_ok c = true.
+Proof.
+  split; [|split; vm_compute; reflexivity].
+  split.
+  - split; [repeat constructor; simpl; intuition lia|repeat constructor; lia].
+  - repeat constructor; simpl; try discriminate; try reflexivity; intros H; discriminate.
 Qed.
